@@ -564,7 +564,7 @@ func checkClassCase(c classCaseV, rec *Rec) error {
 func init() {
 	RegisterRapid("C01_canonical_invariance",
 		"rapid: graph from the mixed generator biased to symmetric inputs (random d-regular graphs by edge switching, circulants, Cayley graphs of Z_a x Z_b, hypercubes, Petersen/Kneser/Johnson/Paley/Shrikhande/rook/generalised Petersen, complete multipartite, products, k disjoint copies (+ another component), joins, wheels, G(n,p)); optional complement, 0-2 toggled edges, isolated/universal vertex; n <= 12 (quick) / 20 (thorough); 4 (8) uniform relabellings pi. CanonicalIsomorph must return a permutation (dense, sparse and view inputs agree; g.InducedSubgraph(perm) equals the model's relabelling) and the canonical graphs of g and every pi(g) must be identical; a second graph (a degree-preserving edge switch of g, relabelled) must get the same canonical graph iff the oracle's individualisation-refinement canonical form says they are isomorphic. Non-trivial: 1-WL colour refinement does not individualise all vertices (the search tree must branch).",
-		Budget{Checks: 2500, Shards: 1}, Budget{Checks: 15000, Shards: 8},
+		Budget{Checks: 2500, Shards: 1}, Budget{Checks: 40000, Shards: 16},
 		func(t *rapid.T) canonCase { return genCanonCase(t, sz(12, 20), sz(4, 8)) }, checkCanonCase)
 	RegisterEnum("C01_all_classes",
 		"enumeration: EVERY isomorphism class on n <= 7 (quick; 1253 classes x 6 relabellings) / n <= 8 (thorough; 13599 classes x 24 relabellings), classes from the oracle's own extension procedure, relabellings derived from VERIF_SEED: canonical graph invariant under every relabelling. Complete up to isomorphism for that range.",
